@@ -68,6 +68,7 @@ def Cfg.cap (cfg : Cfg) : Nat := cfg.size - 1
 structure St where
   cursor : Nat
   emitting : Nat
+  closes : Nat              -- ghost: number of calls of P.Close (C01: exactly one per successful Open)
   pOpened : Bool
   pClosed : Bool
   badWindow : Bool          -- sticky: an Emit started before Open returned or after Close was called
@@ -98,7 +99,7 @@ inductive Label
   deriving DecidableEq, Repr
 
 def init (cfg : Cfg) : St :=
-  { cursor := 0, emitting := 0, pOpened := false, pClosed := false, badWindow := false, badOverlap := false,
+  { cursor := 0, emitting := 0, closes := 0, pOpened := false, pClosed := false, badWindow := false, badOverlap := false,
     f := .opening, ch := [], fin := none, chClosed := false, ctx0 := false, term1 := false,
     cons := .check, delivered := [], res := none, errBudget := cfg.e, stopped := false, faulted := false,
     dropped := false }
@@ -135,7 +136,7 @@ def step (cfg : Cfg) (s : St) : Label → Option St
     | _ => none
   | .fCloseP =>
     match s.f with
-    | .closeP ok => some { s with f := .closed ok, pClosed := true, badOverlap := s.badOverlap || decide (0 < s.emitting) }
+    | .closeP ok => some { s with f := .closed ok, pClosed := true, closes := s.closes + 1, badOverlap := s.badOverlap || decide (0 < s.emitting) }
     | _ => none
   | .fClosed =>
     match s.f with
